@@ -235,3 +235,12 @@ Definition build_parts (d : frame) (nrows : nat) (c : cfg) (parts : list (list t
   | NaRaise, _ :: _ => inr ENullRaise
   | _, _ => inl (map (assemble evs (drop_set c evs) nrows (full_rank c)) parts)
   end.
+
+(* ---------- required variables (C17) ---------- *)
+(* Formula.required_variables for formulas of looked-up names: the name of every LOOKUP factor of every term *)
+Definition required_vars (terms : list term) : list str :=
+  flat_map (fun f => match fk f with FLookup => [fx f] | FLit => [] end) (concat terms).
+(* the data restricted to a set of columns / with one column taken away *)
+Definition restrict (d : frame) (names : list str) : frame := filter (fun p => mem_s (fst p) names) d.
+Definition without (d : frame) (v : str) : frame := filter (fun p => negb (leqb (fst p) v)) d.
+
